@@ -75,7 +75,7 @@ def main():
             "level_claimed": {
                 "category": "exploration",
                 "text": cfg.get("level_text", LEVEL_TEXT["default"]),
-                "design_ref": "DESIGN.md section 4 (%s)" % pid,
+                "design_ref": "DESIGN.md sections 4 (%s, plan) and 10.7 (as built)" % pid,
             },
             "level_note": NOTE_COMP if cfg["engine"] == "compsim" else cfg.get("level_note", NOTE),
             "technique": TECH_COMP if cfg["engine"] == "compsim" else cfg.get("technique", TECH["default"]),
